@@ -1,11 +1,14 @@
 """Operation alphabet: every public entry point of every module the properties anchor.
 
-An op is `name -> OpSpec(fn, family, inplace)`; `fn(L, *args, **kw)` performs exactly one public API
-call (or one constructor + one method call for the fitter convenience ops). `inplace` names the
-positional arguments that the API documents as updated in place (their post-state is compared with the
-reference's post-state instead of being required unchanged).
+An op is `name -> OpSpec(fn, family, inplace, covers)`; `fn(L, *args, **kw)` performs exactly one public
+API call (or one constructor + one method call for the two fitter convenience ops). `inplace` names the
+positional arguments the API documents as updated in place (their post-state is compared with the
+reference's post-state instead of being required unchanged). `covers` names the public callables of the
+library the op exercises; `audit()` compares the union with what the tree under test actually exports.
 """
 import importlib
+import inspect
+import pkgutil
 
 
 class Lib:
@@ -30,10 +33,10 @@ class Lib:
 
 
 class OpSpec:
-    __slots__ = ("name", "fn", "family", "inplace")
+    __slots__ = ("name", "fn", "family", "inplace", "covers")
 
-    def __init__(self, name, fn, family, inplace):
-        self.name, self.fn, self.family, self.inplace = name, fn, family, inplace
+    def __init__(self, name, fn, family, inplace, covers):
+        self.name, self.fn, self.family, self.inplace, self.covers = name, fn, family, inplace, covers
 
     def inplace_args(self, args, kw):
         if callable(self.inplace):
@@ -44,304 +47,388 @@ class OpSpec:
 OPS = {}
 
 
-def op(name, inplace=()):
+def op(name, covers, inplace=()):
     family = name.split(".")[0]
+    if isinstance(covers, str):
+        covers = [covers]
 
     def deco(fn):
-        OPS[name] = OpSpec(name, fn, family, inplace)
+        OPS[name] = OpSpec(name, fn, family, inplace, covers)
         return fn
     return deco
 
 
 # --------------------------------------------------------------------------- prep
-@op("prep.get_preparation_circuit")
+@op("prep.get_preparation_circuit", "stabilizer_circuits.get_preparation_circuit")
 def _(L, stabilizer, *a, **k): return L.sc.get_preparation_circuit(stabilizer, *a, **k)
 
 
-@op("prep.get_readout_circuit")
+@op("prep.get_readout_circuit", "stabilizer_circuits.get_readout_circuit")
 def _(L, stabilizer, *a, **k): return L.sc.get_readout_circuit(stabilizer, *a, **k)
 
 
-@op("prep.compress_preparation_circuit")
+@op("prep.compress_preparation_circuit", "stabilizer_circuits.compress_preparation_circuit")
 def _(L, circuit, *a, **k): return L.sc.compress_preparation_circuit(circuit, *a, **k)
 
 
 # --------------------------------------------------------------------------- mub
-@op("mub.get_mub_circuits")
+@op("mub.get_mub_circuits", "mub_circuits.get_mub_circuits")
 def _(L, n, c): return L.mub.get_mub_circuits(n, c)
 
 
-@op("mub.get_mubs")
+@op("mub.get_mubs", "mub_circuits.get_mubs")
 def _(L, n, c): return L.mub.get_mubs(n, c)
 
 
-@op("mub.get_mub_info")
+@op("mub.get_mub_info", "mub_circuits.get_mub_info")
 def _(L, n, c): return L.mub.get_mub_info(n, c)
 
 
 # --------------------------------------------------------------------------- tomo
-@op("tomo.stabilizer_measurement_circuit")
+@op("tomo.stabilizer_measurement_circuit", "tomography.stabilizer_measurement_circuit")
 def _(L, prep, stab, *a, **k): return L.tomo.stabilizer_measurement_circuit(prep, stab, *a, **k)
 
 
-@op("tomo.full_state_tomography_circuits")
+@op("tomo.full_state_tomography_circuits", "tomography.full_state_tomography_circuits")
 def _(L, prep, *a, **k): return L.tomo.full_state_tomography_circuits(prep, *a, **k)
 
 
-@op("tomo.SMF.new")
+@op("tomo.SMF.new", "tomography.StabilizerMeasurementFitter.__init__")
 def _(L, result, circuit, *a, **k): return L.tomo.StabilizerMeasurementFitter(result, circuit, *a, **k)
 
 
-@op("tomo.SMF.expectation_values")
+@op("tomo.SMF.expectation_values", "tomography.StabilizerMeasurementFitter.expectation_values")
 def _(L, fitter, *a, **k): return fitter.expectation_values(*a, **k)
 
 
-@op("tomo.SMF.density_matrix")
+@op("tomo.SMF.density_matrix", "tomography.StabilizerMeasurementFitter.density_matrix")
 def _(L, fitter, *a, **k): return fitter.density_matrix(*a, **k)
 
 
-@op("tomo.FST.new")
+@op("tomo.FST.new", "tomography.FullStateTomographyFitter.__init__")
 def _(L, result, circuits): return L.tomo.FullStateTomographyFitter(result, circuits)
 
 
-@op("tomo.FST.expectation_values")
+@op("tomo.FST.expectation_values", "tomography.FullStateTomographyFitter.expectation_values")
 def _(L, fitter, *a, **k): return fitter.expectation_values(*a, **k)
 
 
-@op("tomo.FST.density_matrix")
+@op("tomo.FST.density_matrix", "tomography.FullStateTomographyFitter.density_matrix")
 def _(L, fitter, *a, **k): return fitter.density_matrix(*a, **k)
 
 
-@op("tomo.smf_expectation_values")
+@op("tomo.smf_expectation_values", ["tomography.StabilizerMeasurementFitter.__init__",
+                                    "tomography.StabilizerMeasurementFitter.expectation_values"])
 def _(L, result, circuit, result_index=0, full=True):
     return L.tomo.StabilizerMeasurementFitter(result, circuit, result_index).expectation_values(full_hilbert_space=full)
 
 
-@op("tomo.fst_density_matrix")
+@op("tomo.fst_density_matrix", ["tomography.FullStateTomographyFitter.__init__",
+                                "tomography.FullStateTomographyFitter.density_matrix"])
 def _(L, result, circuits, full=True):
     return L.tomo.FullStateTomographyFitter(result, circuits).density_matrix(full_hilbert_space=full)
 
 
-@op("tomo.CircuitResult")
+@op("tomo.CircuitResult", "tomography.CircuitResult.__init__")
 def _(L, counts, *a): return L.tomo.CircuitResult(counts, *a)
 
 
-@op("tomo.z_pauli_from_bitstring")
+@op("tomo.CircuitResult.str", "tomography.CircuitResult.__str__")
+def _(L, r): return str(r)
+
+
+@op("tomo.BinaryResult", "tomography.BinaryResult.__init__")
+def _(L, b, c): return L.tomo.BinaryResult(b, c)
+
+
+@op("tomo.BinaryResult.eq", "tomography.BinaryResult.__eq__")
+def _(L, a, b): return a == b
+
+
+@op("tomo.BinaryResult.str", ["tomography.BinaryResult.__str__", "tomography.BinaryResult.__repr__"])
+def _(L, a, *n): return [a.__str__(*n), repr(a)]
+
+
+@op("tomo.ReadoutInfo", "tomography.ReadoutInfo.__init__")
+def _(L, *a): return L.tomo.ReadoutInfo(*a)
+
+
+@op("tomo.z_pauli_from_bitstring", "tomography.z_pauli_from_bitstring")
 def _(L, n, b): return L.tomo.z_pauli_from_bitstring(n, b)
 
 
 # --------------------------------------------------------------------------- lookup
-@op("lookup.stabilizer_circuit_lookup")
+@op("lookup.stabilizer_circuit_lookup", "circuit_lookup.stabilizer_circuit_lookup")
 def _(L, n, c, i): return L.cl.stabilizer_circuit_lookup(n, c, i)
 
 
-@op("lookup.mub_circuit_lookup")
+@op("lookup.mub_circuit_lookup", "circuit_lookup.mub_circuit_lookup")
 def _(L, n, c): return L.cl.mub_circuit_lookup(n, c)
 
 
-@op("lookup.parse_circuit")
+@op("lookup.parse_circuit", "circuit_lookup.parse_circuit")
 def _(L, n, s): return L.cl.parse_circuit(n, s)
 
 
-@op("lookup.info_parse_circuit")
+@op("lookup.info_parse_circuit", "circuit_lookup.StabilizerCircuitInfo.parse_circuit")
 def _(L, info): return info.parse_circuit()
 
 
-@op("lookup.mubinfo_copy")
+@op("lookup.mubinfo_copy", "circuit_lookup.MUBInfo.copy")
 def _(L, info): return info.copy()
 
 
+@op("lookup.StabilizerCircuitInfo", "circuit_lookup.StabilizerCircuitInfo.__init__")
+def _(L, n, line): return L.cl.StabilizerCircuitInfo(n, line)
+
+
+@op("lookup.MUBInfo", "circuit_lookup.MUBInfo.__init__")
+def _(L, n, lines): return L.cl.MUBInfo(n, lines)
+
+
 # --------------------------------------------------------------------------- conn
-@op("conn.get_available_connectivities")
+@op("conn.get_available_connectivities", "connectivity_support.get_available_connectivities")
 def _(L): return L.cs.get_available_connectivities()
 
 
-@op("conn.is_connectivity_supported")
+@op("conn.is_connectivity_supported", "connectivity_support.is_connectivity_supported")
 def _(L, n, c): return L.cs.is_connectivity_supported(n, c)
 
 
-@op("conn.assert_connectivity_is_supported")
+@op("conn.assert_connectivity_is_supported", "connectivity_support.assert_connectivity_is_supported")
 def _(L, n, c): return L.cs.assert_connectivity_is_supported(n, c)
 
 
-@op("conn.get_connectivity_graph")
+@op("conn.get_connectivity_graph", "connectivity_support.get_connectivity_graph")
 def _(L, n, c): return L.cs.get_connectivity_graph(n, c)
 
 
 # --------------------------------------------------------------------------- stab
-@op("stab.new")
+@op("stab.new", "stabilizer.Stabilizer.__init__")
 def _(L, data, *a, **k): return L.st.Stabilizer(data, *a, **k)
 
 
-@op("stab.validate")
+@op("stab.validate", "stabilizer.Stabilizer.validate")
 def _(L, s): return s.validate()
 
 
-@op("stab.expand")
+@op("stab.expand", "stabilizer.Stabilizer.expand")
 def _(L, s): return s.expand()
 
 
-@op("stab.is_qubit_entangled")
+@op("stab.is_qubit_entangled", "stabilizer.Stabilizer.is_qubit_entangled")
 def _(L, s, q): return s.is_qubit_entangled(q)
 
 
-@op("stab.is_equivalent_mod_phase")
+@op("stab.is_equivalent_mod_phase", "stabilizer.Stabilizer.is_equivalent_mod_phase")
 def _(L, s, o): return s.is_equivalent_mod_phase(o)
 
 
-@op("stab.to_list")
+@op("stab.is_equivalent", "stabilizer.Stabilizer.is_equivalent")
+def _(L, s, o): return s.is_equivalent(o)
+
+
+@op("stab.expectation_value", "stabilizer.Stabilizer.expectation_value")
+def _(L, s, p): return s.expectation_value(p)
+
+
+@op("stab.to_list", "stabilizer.Stabilizer.to_list")
 def _(L, s, *a, **k): return s.to_list(*a, **k)
 
 
-@op("stab.eq")
+@op("stab.eq", "stabilizer.Stabilizer.__eq__")
 def _(L, s, o): return s == o
 
 
-@op("stab.repr")
+@op("stab.repr", "stabilizer.Stabilizer.__repr__")
 def _(L, s): return repr(s)
 
 
 # --------------------------------------------------------------------------- graph
-@op("graph.new")
+@op("graph.new", "graph.Graph.__init__")
 def _(L, data): return L.gr.Graph(data)
 
 
-@op("graph.fully_connected")
+@op("graph.fully_connected", "graph.Graph.fully_connected")
 def _(L, n): return L.gr.Graph.fully_connected(n)
 
 
-@op("graph.star")
+@op("graph.star", "graph.Graph.star")
 def _(L, n, *a): return L.gr.Graph.star(n, *a)
 
 
-@op("graph.linear")
+@op("graph.linear", "graph.Graph.linear")
 def _(L, n): return L.gr.Graph.linear(n)
 
 
-@op("graph.cycle")
+@op("graph.cycle", "graph.Graph.cycle")
 def _(L, n): return L.gr.Graph.cycle(n)
 
 
-@op("graph.pusteblume")
+@op("graph.pusteblume", "graph.Graph.pusteblume")
 def _(L, n): return L.gr.Graph.pusteblume(n)
 
 
-@op("graph.decompress")
+@op("graph.decompress", "graph.Graph.decompress")
 def _(L, n, i): return L.gr.Graph.decompress(n, i)
 
 
-@op("graph.compress")
+@op("graph.compress", "graph.Graph.compress")
 def _(L, g): return g.compress()
 
 
-@op("graph.copy")
+@op("graph.copy", "graph.Graph.copy")
 def _(L, g): return g.copy()
 
 
-@op("graph.local_complementation", inplace=(0,))
+@op("graph.local_complementation", "graph.Graph.local_complementation", inplace=(0,))
 def _(L, g, v): return g.local_complementation(v)
 
 
-@op("graph.local_complemented")
+@op("graph.local_complemented", "graph.Graph.local_complemented")
 def _(L, g, v): return g.local_complemented(v)
 
 
-@op("graph.add_edge", inplace=(0,))
+@op("graph.add_edge", "graph.Graph.add_edge", inplace=(0,))
 def _(L, g, a, b): return g.add_edge(a, b)
 
 
-@op("graph.remove_edge", inplace=(0,))
+@op("graph.remove_edge", "graph.Graph.remove_edge", inplace=(0,))
 def _(L, g, a, b): return g.remove_edge(a, b)
 
 
-@op("graph.add_path", inplace=(0,))
+@op("graph.add_path", "graph.Graph.add_path", inplace=(0,))
 def _(L, g, p): return g.add_path(p)
 
 
-@op("graph.add_star", inplace=(0,))
+@op("graph.add_star", "graph.Graph.add_star", inplace=(0,))
 def _(L, g, p): return g.add_star(p)
 
 
-@op("graph.remove_all_edges_to", inplace=(0,))
+@op("graph.remove_all_edges_to", "graph.Graph.remove_all_edges_to", inplace=(0,))
 def _(L, g, v): return g.remove_all_edges_to(v)
 
 
-@op("graph.clear", inplace=(0,))
+@op("graph.clear", "graph.Graph.clear", inplace=(0,))
 def _(L, g): return g.clear()
 
 
-@op("graph.swap", inplace=(0,))
+@op("graph.swap", "graph.Graph.swap", inplace=(0,))
 def _(L, g, a, b): return g.swap(a, b)
 
 
-@op("graph.get_edges")
+@op("graph.get_edges", "graph.Graph.get_edges")
 def _(L, g): return g.get_edges()
 
 
-@op("graph.edge_count")
+@op("graph.edge_count", "graph.Graph.edge_count")
 def _(L, g): return g.edge_count()
 
 
-@op("graph.has_edge")
+@op("graph.has_edge", "graph.Graph.has_edge")
 def _(L, g, a, b): return g.has_edge(a, b)
 
 
-@op("graph.to_circuit")
+@op("graph.to_circuit", "graph.Graph.to_circuit")
 def _(L, g): return g.to_circuit()
 
 
-@op("graph.eq")
+@op("graph.eq", "graph.Graph.__eq__")
 def _(L, g, o): return g == o
 
 
 # --------------------------------------------------------------------------- lc
-@op("lc.determine_lc_class")
+@op("lc.determine_lc_class", "lc_classes.determine_lc_class")
 def _(L, s): return L.lc.determine_lc_class(s)
 
 
-@op("lc.new")
-def _(L, n, i): return getattr(L.lc, f"LCClass{n}")(i)
+@op("lc.determine_direct", ["lc_classes.determine_lc_class2", "lc_classes.determine_lc_class3",
+                            "lc_classes.determine_lc_class4", "lc_classes.determine_lc_class5",
+                            "lc_classes.determine_lc_class6"])
+def _(L, n, s): return getattr(L.lc, f"determine_lc_class{n}")(s)
 
 
-@op("lc.id")
+@op("lc.new", "lc_classes.LCClassBase.__init__")
+def _(L, n, i, *data): return getattr(L.lc, f"LCClass{n}")(i, *data)
+
+
+@op("lc.new_typed", "lc_classes.LCClassBase.__init__")
+def _(L, n, t, *data):
+    cls = getattr(L.lc, f"LCClass{n}")
+    return cls(cls.EntanglementStructure(t), *data)
+
+
+@op("lc.id", "lc_classes.LCClassBase.id")
 def _(L, c): return c.id()
 
 
-@op("lc.get_graph")
+@op("lc.get_graph", ["lc_classes.LCClassBase.get_graph", "lc_classes.LCClass2.get_graph", "lc_classes.LCClass3.get_graph",
+                     "lc_classes.LCClass4.get_graph", "lc_classes.LCClass5.get_graph", "lc_classes.LCClass6.get_graph"])
 def _(L, c): return c.get_graph()
 
 
-@op("lc.count")
+@op("lc.num_qubits", ["lc_classes.LCClassBase.num_qubits", "lc_classes.LCClass2.num_qubits", "lc_classes.LCClass3.num_qubits",
+                      "lc_classes.LCClass4.num_qubits", "lc_classes.LCClass5.num_qubits", "lc_classes.LCClass6.num_qubits"])
+def _(L, c): return c.num_qubits()
+
+
+@op("lc.count", "lc_classes.LCClassBase.count")
 def _(L, n): return getattr(L.lc, f"LCClass{n}").count()
 
 
-@op("lc.str")
-def _(L, c): return str(c)
+@op("lc.LC_GI_size", "lc_classes.LCClassBase.LC_GI_size")
+def _(L, n, t): return getattr(L.lc, f"LCClass{n}").LC_GI_size(t)
 
 
-@op("lc.eq")
+@op("lc.get_LC_type", ["lc_classes.LCClassBase.get_LC_type", "lc_classes.LCClassBase.get_entanglement_structure"])
+def _(L, n, i):
+    cls = getattr(L.lc, f"LCClass{n}")
+    return [cls.get_LC_type(i), cls.get_entanglement_structure(i)]
+
+
+@op("lc.str", ["lc_classes.LCClassBase.__str__", "lc_classes.LCClassBase.__repr__", "lc_classes.LCClass6.__repr__"])
+def _(L, c): return [str(c), repr(c)]
+
+
+@op("lc.eq", "lc_classes.LCClassBase.__eq__")
 def _(L, c, o): return c == o
 
 
+@op("lc.count_identity_string", "lc_classes.count_identity_string")
+def _(L, sig, s): return L.lc.count_identity_string(sig, s)
+
+
+@op("lc.count_identity_structures", "lc_classes.count_identity_structures")
+def _(L, sig): return L.lc.count_identity_structures(sig)
+
+
+@op("lc.bits", ["lc_classes.bits", "lc_classes.index_of_first_set_bit", "lc_classes.all_but"])
+def _(L, b, n): return [L.lc.bits(b, n), L.lc.index_of_first_set_bit(b), L.lc.all_but(n, L.lc.bits(b, n))]
+
+
 # --------------------------------------------------------------------------- layer
-@op("layer.find_local_clifford_layer")
+@op("layer.find_local_clifford_layer", "find_local_clifford_layer.find_local_clifford_layer")
 def _(L, R, S, g): return L.fl.find_local_clifford_layer(R, S, g)
 
 
-@op("layer.check_LC")
+@op("layer.check_LC", "find_local_clifford_layer.check_LC")
 def _(L, R, S, g, A): return L.fl.check_LC(R, S, g, A)
 
 
-@op("layer.to_circuit")
+@op("layer.to_circuit", "find_local_clifford_layer.local_clifford_layer_to_circuit")
 def _(L, A): return L.fl.local_clifford_layer_to_circuit(A)
 
 
-@op("layer.gen_symplectic")
+@op("layer.gen_symplectic", "find_local_clifford_layer.generate_local_clifford_symplectic")
 def _(L, c): return L.fl.generate_local_clifford_symplectic(c)
 
 
-@op("layer.gen_symplectic_from_id")
+@op("layer.gen_symplectic_from_id", "find_local_clifford_layer.generate_local_clifford_symplectic_from_id")
 def _(L, ids): return L.fl.generate_local_clifford_symplectic_from_id(ids)
+
+
+@op("layer.gen_single_qubit_symplectic", "find_local_clifford_layer.generate_single_qubit_symplectic")
+def _(L, c, n, i): return L.fl.generate_single_qubit_symplectic(c, n, i)
 
 
 # --------------------------------------------------------------------------- rot
@@ -350,58 +437,141 @@ def _rot_inplace(args, kw):
     return (0,) if flag else ()
 
 
-@op("rot.rotate_stabilizer_into_state", inplace=_rot_inplace)
+@op("rot.rotate_stabilizer_into_state", "rotate_stabilizer_into_state.rotate_stabilizer_into_state", inplace=_rot_inplace)
 def _(L, circuit, target, *a, **k): return L.rot.rotate_stabilizer_into_state(circuit, target, *a, **k)
 
 
-@op("rot.synth_circuit_from_stabilizers")
+@op("rot.synth_circuit_from_stabilizers", "rotate_stabilizer_into_state.synth_circuit_from_stabilizers")
 def _(L, stabs, *a, **k): return L.rot.synth_circuit_from_stabilizers(stabs, *a, **k)
 
 
-@op("rot.do_prepare_same_state")
+@op("rot.do_prepare_same_state", "rotate_stabilizer_into_state.do_prepare_same_state")
 def _(L, a, b): return L.rot.do_prepare_same_state(a, b)
 
 
+@op("rot.assert_same_state", "rotate_stabilizer_into_state.assert_same_state")
+def _(L, a, b): return L.rot.assert_same_state(a, b)
+
+
 # --------------------------------------------------------------------------- f2
-@op("f2.rref")
+@op("f2.rref", "f2_algebra.rref")
 def _(L, A): return L.f2.rref(A)
 
 
-@op("f2.rank")
+@op("f2.rank", "f2_algebra.rank")
 def _(L, A): return L.f2.rank(A)
 
 
-@op("f2.null_space")
+@op("f2.null_space", "f2_algebra.null_space")
 def _(L, A): return L.f2.null_space(A)
 
 
-@op("f2.rref_and_basis_change")
+@op("f2.rref_and_basis_change", "f2_algebra.rref_and_basis_change")
 def _(L, A): return L.f2.rref_and_basis_change(A)
 
 
-@op("f2.mat_mul")
+@op("f2.mat_mul", "f2_algebra.mat_mul")
 def _(L, A, B): return L.f2.mat_mul(A, B)
 
 
-@op("f2.add")
+@op("f2.add", "f2_algebra.add")
 def _(L, A, B): return L.f2.add(A, B)
 
 
+@op("f2.trf", ["f2_algebra.trf_swap_rows", "f2_algebra.trf_add_row"])
+def _(L, i, j, m): return [L.f2.trf_swap_rows(i, j, m), L.f2.trf_add_row(i, j, m)]
+
+
 # --------------------------------------------------------------------------- lin
-@op("lin.to")
+_LIN = ["0", "12", "13", "14", "15", "22", "112", "23", "122", "123", "33", "24", "222", "1122", "1113", "1122s"]
+
+
+@op("lin.to", ["linear_index.to_" + n for n in _LIN])
 def _(L, name, idx): return getattr(L.li, "to_" + name)(idx)
 
 
-@op("lin.from")
+@op("lin.from", ["linear_index.from_" + n for n in _LIN])
 def _(L, name, r): return getattr(L.li, "from_" + name)(r)
 
 
-@op("lin.choose2_from")
+@op("lin.1n", ["linear_index.to_1n", "linear_index.from_1n"])
+def _(L, n, idx):
+    r = L.li.to_1n(n, idx)
+    return [r, L.li.from_1n(n, r)]
+
+
+@op("lin.choose2_from", "linear_index.linear_index_from_n_choose_2")
 def _(L, n, i, j): return L.li.linear_index_from_n_choose_2(n, i, j)
 
 
-@op("lin.choose2_to")
+@op("lin.choose2_to", "linear_index.linear_index_to_n_choose2_to")
 def _(L, n, i): return L.li.linear_index_to_n_choose2_to(n, i)
 
 
+# NTuple sorts the list it is given ("tuples of integer that are sorted upon creation"), and Repr wraps
+# inner lists into NTuples: documented in-place effect on argument 0
+@op("lin.NTuple", "linear_index.NTuple.__init__", inplace=(0,))
+def _(L, data): return L.li.NTuple(data)
+
+
+@op("lin.NTuple.query", ["linear_index.NTuple.__len__", "linear_index.NTuple.__getitem__", "linear_index.NTuple.__eq__",
+                         "linear_index.NTuple.__str__", "linear_index.NTuple.__repr__"])
+def _(L, t, o): return [len(t), t[0] if len(t) else None, t == o, str(t), repr(t)]
+
+
+@op("lin.Repr", "linear_index.Repr.__init__", inplace=(0,))
+def _(L, *data): return L.li.Repr(*data)
+
+
+@op("lin.Repr.query", ["linear_index.Repr.get", "linear_index.Repr.flatten", "linear_index.Repr.__eq__",
+                       "linear_index.Repr.__repr__"])
+def _(L, r, o, size, index):
+    out = [r == o, repr(r)]
+    try:
+        out.append(r.get(size, index))
+    except IndexError as e:
+        out.append("IndexError")
+    try:
+        out.append(r.flatten())
+    except TypeError:
+        out.append("TypeError")
+    return out
+
+
+@op("lin.Repr.add", "linear_index.Repr.add", inplace=(0,))
+def _(L, r, t): return r.add(t)
+
+
 FAMILIES = sorted({s.family for s in OPS.values()})
+
+# public callables deliberately outside the alphabet, with the reason
+NOT_COVERED = {
+    "graph.Graph.draw": "matplotlib rendering; opens figures, not a value-returning API of the properties",
+}
+
+
+def audit():
+    """Public callables of the tree under test that no op covers (and covered names that no longer exist)."""
+    import htstabilizer
+    exported = set()
+    for mi in pkgutil.iter_modules(htstabilizer.__path__):
+        if mi.name in ("data", "graph_draw"):
+            continue
+        m = importlib.import_module("htstabilizer." + mi.name)
+        for n, v in vars(m).items():
+            if n.startswith("_"):
+                continue
+            if inspect.isfunction(v) and v.__module__ == m.__name__:
+                exported.add(f"{mi.name}.{n}")
+            elif inspect.isclass(v) and v.__module__ == m.__name__:
+                for k, w in vars(v).items():
+                    if k.startswith("_") and k not in ("__init__", "__eq__", "__str__", "__repr__", "__len__", "__getitem__"):
+                        continue
+                    if inspect.isfunction(w) or isinstance(w, (staticmethod, classmethod)):
+                        exported.add(f"{mi.name}.{n}.{k}")
+    covered = {c for s in OPS.values() for c in s.covers}
+    missing = sorted(exported - covered - set(NOT_COVERED))
+    # subclasses' __init__ etc. are inherited; LCClassN.__init__ is LCClassBase.__init__
+    stale = sorted(covered - exported)
+    return {"exported": len(exported), "covered": len(covered & exported), "not_in_alphabet": missing,
+            "deliberately_excluded": NOT_COVERED, "stale_cover_names": stale}
